@@ -350,5 +350,79 @@ pub fn run(cfg: &Cfg) -> i32 {
                 "rpc_error_list": rpc_errs.as_ref().map(|d| messages_in(&d.join("\n"))), "other_error": other.as_ref().map(|o| clip(o, 200))}));
         }
     }
+    if cfg.stage != "miri" {
+        second_reply_stage(&mut rep, cfg);
+    }
     rep.finish()
+}
+
+/// A reply with an rpc-error of severity error that has been read off the transport by another
+/// request's future, followed by a second, positive reply bearing the same message-id: the
+/// request was answered with an error and must not be reported as successful.
+fn second_reply_stage(rep: &mut Report, cfg: &Cfg) {
+    use crate::sched::drive;
+    let n = cfg.count(400, 40_000);
+    let mut uniq = 1_000_000u32;
+    for i in 0..n {
+        let idx = cfg.case_index(i);
+        let mut r = cfg.prng("C08-second-reply", idx);
+        let kind = r.below(4);
+        // an error document and a positive document of this reply type
+        let mut err_items = gen_items(&mut r, &mut uniq, false, kind);
+        let mut errs = Vec::new();
+        all_errs(&err_items, &mut errs);
+        if !errs.iter().any(|e| e.severity == "error") {
+            let mut e = gen_err(&mut r, &mut uniq);
+            while e.severity != "error" {
+                e = gen_err(&mut r, &mut uniq);
+            }
+            err_items.insert(0, Item::Err(e));
+        }
+        let mut err_body = String::new();
+        render(&err_items, &mut err_body);
+        let ok_body = match kind {
+            0 => "<ok/>".to_string(),
+            1 => "<data>payload</data>".to_string(),
+            2 => String::new(),
+            _ => "<load-configuration-results><ok/></load-configuration-results>".to_string(),
+        };
+        let mut s = sess::establish_ok(crate::memwire::ALL_CAPS);
+        let Some(Ok(fa)) = drive(s.session.rpc::<Get, _>(|b| b.finish()), 64) else { continue };
+        type BoxFut = std::pin::Pin<Box<dyn std::future::Future<Output = Result<String, netconf::Error>>>>;
+        let fb: Option<BoxFut> = match kind {
+            0 => drive(s.session.rpc::<Lock, _>(|b| b.target(Datastore::Running)?.finish()), 64).and_then(Result::ok).map(|f| Box::pin(async move { f.await.map(|v| format!("{v:?}")) }) as BoxFut),
+            1 => drive(s.session.rpc::<GetConfig<Opaque>, _>(|b| b.source(Datastore::Running)?.finish()), 64).and_then(Result::ok).map(|f| Box::pin(async move { f.await.map(|v| format!("{v:?}")) }) as BoxFut),
+            2 => drive(s.session.rpc::<CloseConfiguration, _>(|b| b.finish()), 64).and_then(Result::ok).map(|f| Box::pin(async move { f.await.map(|v| format!("{v:?}")) }) as BoxFut),
+            _ => drive(s.session.rpc::<LoadConfiguration<Config<String, Text, Merge>>, _>(|b| b.source(Config::new("x".to_string(), Text, Merge)).finish()), 64)
+                .and_then(Result::ok)
+                .map(|f| Box::pin(async move { f.await.map(|v| format!("{v:?}")) }) as BoxFut),
+        };
+        let Some(fb) = fb else { continue };
+        let ids: Vec<String> = s.wire.lock().sent.iter().filter_map(|m| crate::memwire::request_message_id_lenient(m)).collect();
+        if ids.len() < 2 {
+            continue;
+        }
+        let (ida, idb) = (&ids[ids.len() - 2], &ids[ids.len() - 1]);
+        let doc = |id: &str, body: &str| format!("<rpc-reply xmlns=\"{BASE_NS}\" message-id=\"{id}\">{body}</rpc-reply>{MARKER}").into_bytes();
+        s.wire.deliver(doc(idb, &err_body));
+        s.wire.deliver(doc(idb, &ok_body));
+        s.wire.deliver(crate::memwire::data_reply(ida, "a"));
+        let ra = drive(Box::pin(fa), 64);
+        let rb = drive(fb, 64);
+        let key = format!("second|{kind}|{err_body}");
+        rep.case(Some(key.as_bytes()));
+        rep.count("second_reply_cases");
+        let wit = json!({"reply_type": KINDS[kind], "first_reply_to_b": clip(&err_body, 600), "second_reply_to_b": ok_body, "case_index": idx, "seed": cfg.seed,
+            "a": format!("{:?}", ra.as_ref().map(|r| r.as_ref().map(|v| v.to_string()).map_err(|e| format!("{e:?}")))),
+            "b": format!("{:?}", rb.as_ref().map(|r| r.as_ref().map(|v| v.clone()).map_err(|e| format!("{e:?}"))))});
+        match rb {
+            Some(Ok(_)) => rep.violation(
+                &format!("{}:error-reply-replaced-by-a-second-positive-reply", KINDS[kind]),
+                "the request was answered with an rpc-error of severity error; a second reply bearing its message-id turned that into success",
+                wit,
+            ),
+            Some(Err(_)) => rep.count("second_reply_cases_reported_as_error"),
+            None => rep.count("second_reply_cases_left_pending"),
+        }
+    }
 }
